@@ -1,5 +1,6 @@
 import PiqpProofs.Basic
 import PiqpModel.Control
+import PiqpModel.Api
 
 /-!
 # C06 — any finite input terminates safely
@@ -29,4 +30,160 @@ theorem status_documented (st : Settings K) (cs : Consts K) (ops : LoopOps K σ)
     (loopG st cs ops c s info).2 ∈ [Status.solved, Status.maxIterReached, Status.primalInfeasible, Status.dualInfeasible, Status.numerics] := by
   fun_induction loopG st cs ops c s info <;> simp_all
 
+end Piqp.C06
+
+/-! ## the same at the level of `solve()` and of the public interface (glue included: settings check, start state,
+    factorisation retry loop before the first iterate, initial point, main loop, unscaling) -/
+
+namespace Piqp.C06
+set_option linter.unusedSectionVars false
+set_option linter.unusedSimpArgs false
+set_option linter.unusedVariables false
+variable {K : Type}
+variable [Add K] [Sub K] [Mul K] [Div K] [Neg K] [Zero K] [One K] [LT K] [DecidableLT K] [LE K] [DecidableLE K]
+variable [NatCast K] [BEq K] [Inhabited K]
+variable {σ : Type}
+
+/-- the numeric operations do not touch the iteration counter stored in `info` -/
+structure OpsKeepIter (ops : LoopOps K σ) : Prop where
+  head : ∀ b s (i : Info K), (ops.head b s i).2.iter = i.iter
+  shift : ∀ s (i : Info K), (ops.shift s i).2.iter = i.iter
+  stepNum : ∀ b s (i : Info K), (ops.stepNum b s i).2.1.iter = i.iter
+
+theorem finetuneSwitch_iter (st : Settings K) (i : Info K) : (finetuneSwitch st i).iter = i.iter := by
+  unfold finetuneSwitch; simp only; split <;> rfl
+
+theorem regUpdateIneq_iter (st : Settings K) (cs : Consts K) (i : Info K) (a b c d e f : K) :
+    (regUpdateIneq st cs i a b c d e f).1.iter = i.iter := by
+  unfold regUpdateIneq; simp only; split <;> split <;> rfl
+
+theorem regUpdateEq_iter (cs : Consts K) (i : Info K) (a b : K) : (regUpdateEq cs i a b).1.iter = i.iter := by
+  unfold regUpdateEq; simp only; split <;> split <;> rfl
+
+/-- `info.iter` is the loop counter at every exit -/
+theorem loopG_info_iter (st : Settings K) (cs : Consts K) (ops : LoopOps K σ) (hk : OpsKeepIter ops) (c : Ctrl) (s : σ) (info : Info K)
+    (h : info.iter = c.iter) :
+    (loopG st cs ops c s info).1.2.2.iter = (loopG st cs ops c s info).1.1.iter := by
+  fun_induction loopG st cs ops c s info
+  case case1 c s info hlt hi hterm =>
+    simp only [hi]; rw [hk.head]; exact h
+  case case2 c s info hlt hi hterm s1 hp =>
+    simp only [hi]; rw [hk.head]; exact h
+  case case3 c s info hlt hi hterm s1 hp hd =>
+    simp only [hi]; rw [hk.head]; exact h
+  case case4 c s info hlt hi hterm s1 hp hd iter1 sh info2 s2 fa hfa sn info3 ru s4 ih =>
+    apply ih
+    simp only [ru, info3, sn, iter1]
+    split
+    · rw [regUpdateIneq_iter, hk.stepNum]
+    · rw [regUpdateEq_iter, hk.stepNum]
+  case case5 c s info hlt hi hterm s1 hp hd iter1 sh info2 s2 fa hfa hr ih =>
+    apply ih; rfl
+  case case6 c s info hlt hi hterm s1 hp hd sh info2 s2 fa hfa hr hf ih =>
+    apply ih; rfl
+  case case7 c s info hlt hi hterm s1 hp hd iter1 sh info2 s2 fa hfa hr hf =>
+    rfl
+  case case8 c s info hlt =>
+    exact h
+
+theorem initLoopG_info (st : Settings K) (cs : Consts K) (ops : LoopOps K σ) (refineOn : Bool) (retries : Nat) (s : σ) (info : Info K) :
+    (initLoopG st cs ops refineOn retries s info).2.2.2.1.iter = info.iter ∧
+    ((initLoopG st cs ops refineOn retries s info).2.2.2.2 = false →
+      (initLoopG st cs ops refineOn retries s info).2.2.2.1.status = Status.numerics) := by
+  fun_induction initLoopG st cs ops refineOn retries s info
+  case case1 => exact ⟨rfl, fun h => by cases h⟩
+  case case2 ih => exact ih
+  case case3 ih => exact ih
+  case case4 => exact ⟨rfl, fun _ => rfl⟩
+
+variable {n p m : Nat}
+
+omit [Neg K] [LE K] [DecidableLE K] [NatCast K] [Inhabited K] in
+theorem loop_status_eq_info (st : Settings K) (cs : Consts K) (ops : LoopOps K σ) (c : Ctrl) (s : σ) (info : Info K) :
+    (loopG st cs ops c s info).1.2.2.status = (loopG st cs ops c s info).2 := by
+  fun_induction loopG st cs ops c s info <;> simp_all
+
+theorem initialPoint_iter (cs : Consts K) (s : Solver K n p m) (e : Env K n p m) (w0 : Work K n p m) (k : KKT K n p m) (i : Info K) (b : Bool) :
+    (initialPoint cs s e w0 k i b).info.iter = i.iter ∧ (initialPoint cs s e w0 k i b).c.iter = 0 := by
+  unfold initialPoint
+  simp only
+  constructor
+  · split <;> rfl
+  · trivial
+
+theorem updateNr_iter (e : Env K n p m) (w : Work K n p m) (i : Info K) : (updateNrResiduals e w i).2.iter = i.iter := rfl
+
+theorem realOps_keepIter (e : Env K n p m) : OpsKeepIter (realOps e) where
+  head := by
+    intro b s i
+    cases b <;> rfl
+  shift := by
+    intro s i
+    simp only [realOps, shiftOp]
+    split <;> rfl
+  stepNum := by
+    intro b s i
+    simp only [realOps, stepNumOp]
+    split <;> rfl
+
+/-- **C06 / C09 at the interface**: whatever the data, `solve()` returns one of the six documented codes (UNSOLVED is only
+    ever reported by a solver that was never set up), `info.status` is that code, and `info.iter ≤ max_iter`. -/
+theorem solve_documented (cs : Consts K) (sqrtF : K → K) (s : Solver K n p m) (perm : Vector (Fin (n + p + m)) (n + p + m)) :
+    (solveTyped cs sqrtF s perm).2 ∈ [Status.solved, Status.maxIterReached, Status.primalInfeasible, Status.dualInfeasible,
+        Status.numerics, Status.invalidSettings] ∧
+    (solveTyped cs sqrtF s perm).1.info.status = (solveTyped cs sqrtF s perm).2 ∧
+    (s.st.verify = true → ((solveTyped cs sqrtF s perm).1.info.iter : Int) ≤ s.st.maxIter) := by
+  unfold solveTyped
+  by_cases hv : s.st.verify
+  · simp only [hv, Bool.not_true, Bool.false_eq_true, if_false]
+    have hmax : (0 : Int) < s.st.maxIter := by
+      unfold Settings.verify at hv
+      simp only [Bool.and_eq_true, decide_eq_true_eq] at hv
+      exact hv.1.1.1.1.1.1.1.1.1.1.2
+    have hil := initLoopG_info (Solver.env cs sqrtF s perm).st (Solver.env cs sqrtF s perm).cs (realOps (Solver.env cs sqrtF s perm))
+      s.refineOn 0 ((solveStart cs sqrtF s perm).1, (solveStart cs sqrtF s perm).2.1) (solveStart cs sqrtF s perm).2.2
+    have hstart : (solveStart cs sqrtF s perm).2.2.iter = 0 := rfl
+    generalize initLoopG (Solver.env cs sqrtF s perm).st (Solver.env cs sqrtF s perm).cs (realOps (Solver.env cs sqrtF s perm))
+      s.refineOn 0 ((solveStart cs sqrtF s perm).1, (solveStart cs sqrtF s perm).2.1) (solveStart cs sqrtF s perm).2.2 = il at hil ⊢
+    obtain ⟨a, b, wk, info, ok⟩ := il
+    simp only at hil ⊢
+    cases ok
+    · simp only [Bool.not_false, if_true]
+      refine ⟨by simp, hil.2 rfl, fun _ => ?_⟩
+      rw [hil.1, hstart]; exact Int.le_of_lt hmax
+    · simp only [Bool.not_true, Bool.false_eq_true, if_false]
+      obtain ⟨hi1, hi2⟩ := initialPoint_iter cs s (Solver.env cs sqrtF s perm) (solveStart cs sqrtF s perm).1 wk.2 info a
+      generalize initialPoint cs s (Solver.env cs sqrtF s perm) (solveStart cs sqrtF s perm).1 wk.2 info a = ls0 at hi1 hi2 ⊢
+      unfold mainLoop
+      simp only
+      have e0 : (Solver.env cs sqrtF s perm).st = s.st := rfl
+      have hst := status_documented s.st (Solver.env cs sqrtF s perm).cs (realOps (Solver.env cs sqrtF s perm)) ls0.c (ls0.w, ls0.kkt) ls0.info
+      have hse := loop_status_eq_info s.st (Solver.env cs sqrtF s perm).cs (realOps (Solver.env cs sqrtF s perm)) ls0.c (ls0.w, ls0.kkt) ls0.info
+      have hit := iter_le_max_iter s.st (Solver.env cs sqrtF s perm).cs (realOps (Solver.env cs sqrtF s perm)) ls0.c (ls0.w, ls0.kkt) ls0.info
+        (by rw [hi2]; exact Int.le_of_lt hmax)
+      have hii := loopG_info_iter s.st (Solver.env cs sqrtF s perm).cs (realOps (Solver.env cs sqrtF s perm))
+        (realOps_keepIter (Solver.env cs sqrtF s perm)) ls0.c (ls0.w, ls0.kkt) ls0.info (by rw [hi1, hi2, hil.1, hstart])
+      rw [e0]
+      refine ⟨?_, hse, fun _ => by rw [hii]; exact hit⟩
+      have := hst
+      simp only [List.mem_cons, List.not_mem_nil, or_false] at this ⊢
+      rcases this with h | h | h | h | h <;> simp [h]
+  · have hv' : s.st.verify = false := by simpa using hv
+    simp only [hv', Bool.not_false, if_true]
+    exact ⟨by simp, trivial, fun h => by cases h⟩
+
+/-- the same at the public interface: `solve()` always answers with a documented status code (UNSOLVED exactly when the
+    solver was never set up) -/
+theorem api_solve_documented (cs : Consts K) (sqrtF : K → K) (poison : K) (st : ApiState K) :
+    ∃ s', (apiStep cs sqrtF poison st Call.solve).2 = Outcome.status s' ∧
+      s' ∈ [Status.solved, Status.maxIterReached, Status.primalInfeasible, Status.dualInfeasible, Status.numerics,
+            Status.invalidSettings, Status.unsolved] := by
+  simp only [apiStep]
+  cases hs : st.sol with
+  | none => exact ⟨Status.unsolved, rfl, by simp⟩
+  | some a =>
+    refine ⟨(solveTyped cs sqrtF a.s a.perm).2, rfl, ?_⟩
+    have := (solve_documented cs sqrtF a.s a.perm).1
+    simp only [List.mem_cons, List.not_mem_nil, or_false] at this ⊢
+    rcases this with h | h | h | h | h | h <;> simp [h]
 end Piqp.C06
